@@ -84,8 +84,10 @@ def c04_types_wat():
             ps.append(tys[n % 4])
             n //= 4
         return " ".join(ps)
-    for k in range(130):
-        out.append("  (type $t%d (func (param %s)))" % (k, sig(k)))
+    # 63 functions with pairwise distinct parameter lists take type indices 0..62; the exported functions' own
+    # type is index 63 and the types of their multi-value blocks follow at 64, 65, 66
+    for k in range(63):
+        out.append("  (func $f%d (param %s))" % (k, sig(k)))
     for name, res in (("mv64", "i32 i64"), ("mv65", "i64 i32"), ("mv66", "f32 i32")):
         out.append('  (func $%s (export "%s") (result i32)\n    block (result %s)\n      %s\n    end\n    drop\n    drop\n    i32.const 1\n  )' % (
             name, name, res, "\n      ".join("%s.const 1" % t for t in res.split())))
